@@ -109,11 +109,15 @@ def check_mol(smi):
         # conversions hand out independent objects: edit the returned graph, convert the same string again
         ref_view = graph_view(g)
         gm = smiles_to_graph(s)
-        for v in list(gm.nodes):
-            gm.nodes[v]["charge"] = 7
-            gm.nodes[v]["hcount"] = 0
-        if gm.number_of_nodes() > 1:
-            gm.remove_node(max(gm.nodes))
+        import copy as _copy
+
+        g_first, g = g, _copy.deepcopy(g)  # keep working on a private copy; edit the object the FIRST conversion returned
+        for obj in (gm, g_first):
+            for v in list(obj.nodes):
+                obj.nodes[v]["charge"] = 7
+                obj.nodes[v]["hcount"] = 0
+            if obj.number_of_nodes() > 1:
+                obj.remove_node(max(obj.nodes))
         g_again = smiles_to_graph(s)
         n += 2
         if graph_view(g_again) != ref_view or graph_view(g) != ref_view:
